@@ -23,9 +23,114 @@ derive Clone, Copy
 pub mod wincode {
     pub enum ReadError { Custom(&'static str) }
 }
+// `.map_err(|e| { warn!(..); wincode::ReadError::Custom("invalid BLS encoding") })` (R8)
+pub fn verif_map_bls_err(r: Result<BlstSignature, BlstError>) -> (o: Result<BlstSignature, wincode::ReadError>)
+    ensures r matches Ok(s) ==> o == Ok::<BlstSignature, wincode::ReadError>(s), r is Err ==> o is Err
+{ match r { Ok(s) => Ok(s), Err(_) => Err(wincode::ReadError::Custom("invalid BLS encoding")) } }
+
+// ---------------------------------------------------------------- AggregateSignature on the wire
+/*@ extract src/crypto/aggsig.rs :: const UNCOMPRESSED_SIG_SIZE
+@*/
+// blst's signature point and its two byte encodings (TRUSTED): `serialize()` is the 96-byte uncompressed form,
+// `to_bytes()` the 48-byte compressed one; `from_bytes` inverts the encoding of the length it is given
+#[verifier::external_body] pub struct BlstSignature { _p: () }
+#[verifier::external_body] pub struct BlstError { _p: () }
+pub uninterp spec fn spec_ser(sig: BlstSignature) -> Seq<u8>;      // uncompressed
+pub uninterp spec fn spec_comp(sig: BlstSignature) -> Seq<u8>;     // compressed
+impl BlstSignature {
+    #[verifier::external_body]
+    pub fn serialize(&self) -> (r: [u8; 96]) ensures r@ == spec_ser(*self) { unimplemented!() }
+    #[verifier::external_body]
+    pub fn to_bytes(&self) -> (r: [u8; 48]) ensures r@ == spec_comp(*self) { unimplemented!() }
+    #[verifier::external_body]
+    pub fn from_bytes(bytes: &[u8]) -> (r: Result<BlstSignature, BlstError>)
+        ensures
+            r matches Ok(s) ==> spec_de(bytes@) == Some(s),
+            r is Err ==> spec_de(bytes@) is None,
+    { unimplemented!() }
+}
+// what from_bytes decodes; it inverts the uncompressed encoding (TRUSTED blst fact)
+pub uninterp spec fn spec_de(bytes: Seq<u8>) -> Option<BlstSignature>;
+#[verifier::external_body]
+pub proof fn axiom_de_ser(s: BlstSignature)
+    ensures spec_de(spec_ser(s)) == Some(s), spec_ser(s).len() == 96
+{}
+// what read_bitvec decodes from the front of a byte string: the mask and the number of bytes consumed
+pub uninterp spec fn spec_read_bitvec(bytes: Seq<u8>, max_bits: usize) -> Option<(BitVec, nat)>;
+// ASSUMED: read_bitvec inverts write_bitvec on a mask an honest node encodes (its length guards are verified above)
+#[verifier::external_body]
+pub proof fn axiom_read_write_bitvec(b: BitVec, tail: Seq<u8>, max_bits: usize)
+    requires honest_mask(b, max_bits),
+    ensures spec_read_bitvec(spec_bitvec_bytes(b) + tail, max_bits) == Some((b, spec_bitvec_bytes(b).len()))
+{}
+pub uninterp spec fn honest_mask(b: BitVec, max_bits: usize) -> bool;
+// the signer bitmask (bitvec::BitVec) and its encoding by write_bitvec / read_bitvec: bit count, word count, words.
+// Their length guards are verified above; that read_bitvec inverts write_bitvec on an honest mask is ASSUMED here.
+#[verifier::external_body] pub struct BitVec { _p: () }
+pub uninterp spec fn spec_bitvec_bytes(b: BitVec) -> Seq<u8>;
+pub uninterp spec fn spec_raw_words(b: BitVec) -> nat;
+#[verifier::external_body]
+pub proof fn axiom_bitvec_bytes_len(b: BitVec)
+    ensures spec_bitvec_bytes(b).len() == 8 + 8 + 8 * spec_raw_words(b)
+{}
+impl BitVec {
+    #[verifier::external_body]
+    pub fn verif_raw_len(&self) -> (r: usize) ensures r == spec_raw_words(*self), r <= 0x1000_0000 { unimplemented!() }   // as_raw_slice().len()
+}
+/*@ extract src/crypto/aggsig.rs :: struct AggregateSignature
+derive
+rewrite[R8] `BlstSignature` => `BlstSignature`
+@*/
+// wincode's Writer / Reader over a byte buffer, as ghost byte sequences
+#[verifier::external_body] pub struct VWriter { _p: () }
+#[verifier::external_body] pub struct VReader { _p: () }
+pub struct WriteError;
+impl VWriter {
+    pub uninterp spec fn out(&self) -> Seq<u8>;
+    #[verifier::external_body]
+    pub fn write(&mut self, bytes: &[u8]) -> (r: Result<(), WriteError>)
+        ensures r is Ok ==> final(self).out() == old(self).out() + bytes@, r is Err ==> final(self).out() == old(self).out()
+    { unimplemented!() }
+}
+impl VReader {
+    pub uninterp spec fn rest(&self) -> Seq<u8>;
+    // Reader::take_borrowed(n): the next n bytes, or an error (nothing consumed) if fewer are left
+    #[verifier::external_body]
+    pub fn take_borrowed(&mut self, n: usize) -> (r: Result<&[u8], wincode::ReadError>)
+        ensures
+            old(self).rest().len() >= n ==> (r matches Ok(b) && b@ == old(self).rest().subrange(0, n as int) && final(self).rest() == old(self).rest().subrange(n as int, old(self).rest().len() as int)),
+            old(self).rest().len() < n ==> r is Err,
+    { unimplemented!() }
+}
 
 // number of 64-bit words an honest encoder writes for an n-bit mask
 pub open spec fn words_for(n: int) -> int { (n + 63) / 64 }
+
+// what AggregateSignature::read decodes from the front of a byte string
+pub open spec fn spec_read_aggsig(bytes: Seq<u8>) -> Option<(AggregateSignature, nat)> {
+    if bytes.len() < UNCOMPRESSED_SIG_SIZE { None } else {
+        match spec_de(bytes.subrange(0, UNCOMPRESSED_SIG_SIZE as int)) {
+            None => None,
+            Some(sig) => match spec_read_bitvec(bytes.subrange(UNCOMPRESSED_SIG_SIZE as int, bytes.len() as int), MAX_SIGNERS) {
+                None => None,
+                Some(d) => Some((AggregateSignature { sig, bitmask: d.0 }, (UNCOMPRESSED_SIG_SIZE + d.1) as nat)),
+            },
+        }
+    }
+}
+// THEOREM [C19.aggregate_signature_round_trips]: the bytes `write` produces for an aggregate with an honest mask decode, by
+// `read`, to exactly that aggregate, consuming exactly those bytes
+pub proof fn theorem_aggsig_round_trip(a: AggregateSignature, tail: Seq<u8>)
+    requires honest_mask(a.bitmask, MAX_SIGNERS),
+    ensures spec_read_aggsig(spec_ser(a.sig) + spec_bitvec_bytes(a.bitmask) + tail)
+        == Some((a, (spec_ser(a.sig).len() + spec_bitvec_bytes(a.bitmask).len()) as nat)),
+{
+    axiom_de_ser(a.sig);
+    let bytes = spec_ser(a.sig) + spec_bitvec_bytes(a.bitmask) + tail;
+    assert(bytes.subrange(0, 96) =~= spec_ser(a.sig));
+    assert(bytes.subrange(96, bytes.len() as int) =~= spec_bitvec_bytes(a.bitmask) + tail);
+    axiom_read_write_bitvec(a.bitmask, tail, MAX_SIGNERS);
+}
 
 pub mod code {
 use super::*;
@@ -48,6 +153,71 @@ requires
 ensures
         // [C19.bitmask_lengths_accepted_exactly_when_consistent C10.bitmask_lengths_accepted_exactly_when_consistent]
         r is Ok <==> (raw_len as int <= words_for(max_bits as int) && num_bits as int <= 64 * raw_len as int),
+@*/
+
+// write_bitvec / read_bitvec as a matched pair (ASSUMED; the guards of read_bitvec are verified above)
+#[verifier::external_body]
+pub fn write_bitvec(writer: &mut VWriter, bitmask: &BitVec) -> (r: Result<(), WriteError>)
+    ensures r is Ok ==> final(writer).out() == old(writer).out() + spec_bitvec_bytes(*bitmask)
+{ unimplemented!() }
+#[verifier::external_body]
+pub fn read_bitvec(reader: &mut VReader, max_bits: usize) -> (r: Result<BitVec, wincode::ReadError>)
+    ensures
+        spec_read_bitvec(old(reader).rest(), max_bits) matches Some(d) ==> r == Ok::<BitVec, wincode::ReadError>(d.0)
+            && d.1 <= old(reader).rest().len() && final(reader).rest() == old(reader).rest().subrange(d.1 as int, old(reader).rest().len() as int),
+        spec_read_bitvec(old(reader).rest(), max_bits) is None ==> r is Err,
+{ unimplemented!() }
+
+/*@ extract src/crypto/aggsig.rs :: fn bitvec_size
+props C19
+ret r
+rewrite[R8] `bitmask.as_raw_slice().len()` => `bitmask.verif_raw_len()`
+ensures
+        r == spec_bitvec_bytes(*bitmask).len(),
+        r <= 0x1_0000_0000,
+before `8 + 8 + 8 *`
+        proof { axiom_bitvec_bytes_len(*bitmask); }
+@*/
+
+/*@ extract src/crypto/aggsig.rs :: impl SchemaWrite<C> for AggregateSignature/fn size_of
+props C19
+ret r
+sig `src: &Self::Src` => `src: &AggregateSignature`
+sig `wincode::WriteResult<usize>` => `Result<usize, WriteError>`
+ensures
+        // [C19.size_of_is_what_write_produces]
+        r matches Ok(n) && n == UNCOMPRESSED_SIG_SIZE + spec_bitvec_bytes(src.bitmask).len(),
+@*/
+
+/*@ extract src/crypto/aggsig.rs :: impl SchemaWrite<C> for AggregateSignature/fn write
+props C19
+ret r
+sig `mut writer: impl wincode::io::Writer` => `writer: &mut VWriter`
+sig `src: &Self::Src` => `src: &AggregateSignature`
+sig `wincode::WriteResult<()>` => `Result<(), WriteError>`
+rewrite[R6] `write_bitvec::<C>(&mut writer,` => `write_bitvec(writer,`
+ensures
+        // [C19.aggregate_signature_is_written_in_the_encoding_read_expects] exactly UNCOMPRESSED_SIG_SIZE bytes of the
+        // UNCOMPRESSED point encoding (what `read` takes and `from_bytes` inverts), then the bitmask
+        r is Ok ==> final(writer).out() == old(writer).out() + spec_ser(src.sig) + spec_bitvec_bytes(src.bitmask),
+        r is Ok ==> spec_ser(src.sig).len() == UNCOMPRESSED_SIG_SIZE,
+@*/
+
+/*@ extract src/crypto/aggsig.rs :: impl SchemaRead<'de, C> for AggregateSignature/fn read
+props C19
+ret r
+sig `mut reader: impl wincode::io::Reader<'de>` => `reader: &mut VReader`
+sig `dst: &mut MaybeUninit<Self::Dst>` => `dst: &mut Option<AggregateSignature>`
+sig `wincode::ReadResult<()>` => `Result<(), wincode::ReadError>`
+rewrite[R8] `BlstSignature::from_bytes(sig_bytes).map_err(|e| { wincode::ReadError::Custom("invalid BLS encoding") })?` => `verif_map_bls_err(BlstSignature::from_bytes(sig_bytes))?`
+rewrite[R6] `read_bitvec::<C>(&mut reader, MAX_SIGNERS)` => `read_bitvec(reader, MAX_SIGNERS)`
+rewrite[R8] `dst.write(AggregateSignature { sig, bitmask });` => `*dst = Some(AggregateSignature { sig, bitmask });`
+rewrite[R6] `wincode::ReadResult::Ok(())` => `Ok(())`
+ensures
+        // [C19.aggregate_signature_read_takes_the_uncompressed_point_then_the_mask] (the round trip is theorem_aggsig_round_trip)
+        r is Ok <==> spec_read_aggsig(old(reader).rest()) is Some,
+        r is Ok ==> *final(dst) == Some((spec_read_aggsig(old(reader).rest())->0).0)
+            && final(reader).rest() == old(reader).rest().subrange((spec_read_aggsig(old(reader).rest())->0).1 as int, old(reader).rest().len() as int),
 @*/
 
 impl SliceIndex {
